@@ -58,7 +58,7 @@ def gen_cases(tier, seed):
     for i in range(nb):
         cases.append({"id": f"buf{i}", "family": "buffers", "seed": [seed, "buf", i], "n": 12})
     modes = ["ddp", "hsdp", "hybrid"]
-    for i in range(36 if tier == "quick" else 400):
+    for i in range(60 if tier == "quick" else 480):
         cases.append({"id": f"live{i}", "family": "live", "mode": modes[i % 3], "seed": [seed, "live", i]})
     return cases
 
